@@ -613,3 +613,33 @@ package contractcourt
 //@   loop 0 step called(NewChannelArbitrator)
 //@   site call NewChannelArbitrator: assert arg(0).CloseType == closeChanInfo.CloseType && arg(0).IsPendingClose &&
 //@        arg(0).ClosingHeight == closeChanInfo.CloseHeight
+//@
+//@ // ---- round 9 (C12). A commit set is empty only if NONE of its HTLC sets holds an HTLC - dust HTLCs count: received dust still has to be
+//@ // ---- closed out and offered dust failed back, and the empty-set shortcut of the state machine skips both
+//@ func (c *CommitSet) IsEmpty
+//@   props C12 C13
+//@   loop * havoc
+//@   site return * nth 1 as non-empty-set-found: assert !result && len(htlcs) != 0
+//@   site return * nth 2 as scanned-all-sets: assert result
+//@   site return * nth 0 as nil-set: assert result && c == nil
+//@   loop 0 step len(htlcs) == 0
+//@
+//@ // ---- the preimage of a received HTLC counts as available when the witness cache has it or the invoice found under the HTLC's hash
+//@ // ---- carries one - whatever state that invoice is in (a settled invoice whose fulfill was never locked in is exactly the case that
+//@ // ---- needs the force close)
+//@ func (c *ChannelArbitrator) isPreimageAvailable
+//@   props C12
+//@   loop * havoc
+//@   ensures result1 == nil && retn(LookupPreimage, 1) ==> result0
+//@   ensures result1 == nil && called(LookupInvoice) && retn(LookupInvoice, 1) == nil ==> result0 == (retn(LookupInvoice, 0).Terms.PaymentPreimage != nil)
+//@   site call LookupPreimage: assert arg(1) == hash
+//@   site call LookupInvoice: assert arg(2) == hash && !retn(LookupPreimage, 1)
+//@
+//@ // ---- the start state read from the log: the persisted commit set is fetched whatever the stored state is (the close handlers write the
+//@ // ---- commit set BEFORE the first state transition, so a stop in between leaves StateDefault with a commit set on disk)
+//@ func (c *ChannelArbitrator) getStartState
+//@   props C12 C13
+//@   loop * havoc
+//@   ensures result1 == nil ==> called(CurrentState) && retn(CurrentState, 1) == nil && called(FetchConfirmedCommitSet) &&
+//@           result0 != nil && result0.currentState == retn(CurrentState, 0) && result0.commitSet == retn(FetchConfirmedCommitSet, 0)
+//@   site call FetchConfirmedCommitSet: assert arg(1) == tx
